@@ -87,7 +87,7 @@ def pair_states(prog, f, g, start, var, stop=None, stop_edge=None,
 # ------------------------------------------------------------------------------
 # R07.1  publication / hand-on pairing per path
 #
-def r07_1(prog, rep, rid='R07.1'):
+def r07_1(prog, rep, rid='R07.1', pub_only=False):
     rep.rule(rid, 'on every path of each finishing region the task is '
              'announced for unscheduling as often as it is handed on (0 or 1 '
              'times), with its outcome recorded first', minimum=7)
@@ -147,7 +147,7 @@ def r07_1(prog, rep, rid='R07.1'):
         if t.node != gl.exit.id:
             continue
         p, h, ts = t.state
-        if h > 1 or p > 1:
+        if p > 1 or (h > 1 and not pub_only):
             worst = (t, p, h)
     if worst:
         t, p, h = worst
